@@ -176,6 +176,10 @@ def run(chk):
         r_ok = bool(attr_stores_chain(fd, OBJ, ("_feature_scaler", loc))) and bool(attr_stores_chain(fd, OBJ, ("_y_scaler", loc)))
         r1.require(w_ok and r_ok, f"{hm.key}|scaler:{meth}", fd.where(), f"{meth}: writer and reader must both use `.{loc}` / `.scale_` of the feature and y scalers")
 
+    # symbolic round trip: to_dict and from_dict interpreted back to back on symbolic fitted state (rules/hourly_roundtrip.py)
+    from rules.hourly_roundtrip import check as hourly_round_trip
+    hourly_round_trip(chk, r1, td, fd)
+
     # ---- R01.2 hourly state coverage
     pred = method(chk, hm, "predict")
     P = _fitted_reach(chk, pred, hm)
